@@ -45,11 +45,11 @@ def load_prop(pid):
 def run_one(prop, case, inst):
     """Execute one case under the watchdog. Always returns a result dict."""
     signal.signal(signal.SIGALRM, _alarm)
-    signal.alarm(CASE_TIMEOUT_S)
+    signal.alarm(int(getattr(prop, "CASE_TIMEOUT_S", CASE_TIMEOUT_S)))
     try:
         res = prop.run_case(case, inst)
     except CaseTimeout:
-        res = {"ok": False, "sig": "timeout", "obs": f"no result within {CASE_TIMEOUT_S}s", "exp": "termination"}
+        res = {"ok": False, "sig": "timeout", "obs": "no result within the per-case time limit", "exp": "termination"}
     except Exception as e:  # an exception escaping the property module's own handling is an observation too
         res = {"ok": False, "sig": f"exc:{type(e).__name__}", "obs": traceback.format_exc()[-1500:], "exp": "no exception"}
     finally:
@@ -145,7 +145,7 @@ def confirm_in_fresh_process(pid, seed, case):
             "print('@@' + json.dumps([bool(r.get('ok')), r.get('sig'), runner._short(r.get('obs'))]))")
     env = dict(os.environ, PYTHONHASHSEED="0")
     p = subprocess.run([sys.executable, "-c", code, pid, str(seed)], input=repr(case), capture_output=True, text=True,
-                       cwd=VERIF_ROOT, env=env, timeout=CASE_TIMEOUT_S * 3)
+                       cwd=VERIF_ROOT, env=env, timeout=int(getattr(load_prop(pid), "CASE_TIMEOUT_S", CASE_TIMEOUT_S)) * 3)
     for line in p.stdout.splitlines():
         if line.startswith("@@"):
             return json.loads(line[2:])
